@@ -243,7 +243,7 @@ instance (recKey : P SearchKey) [NoPanic recKey] : NoPanic (handleSearchKey recK
 instance (recKey : P SearchKey) [NoPanic recKey] : NoPanic (parseSearchKeyList recKey fuel) := by unfold parseSearchKeyList; infer_instance
 theorem np_parseSearchKey (d fuel : Nat) : NoPanic (parseSearchKey d fuel) := by
   induction d with
-  | zero => exact inferInstanceAs (NoPanic outOfFuel)
+  | zero => unfold parseSearchKey; infer_instance
   | succ d ih => unfold parseSearchKey; infer_instance
 instance : NoPanic (parseSearchKey d fuel) := np_parseSearchKey d fuel
 instance : NoPanic (searchFirst fuel) := by unfold searchFirst; infer_instance
@@ -251,7 +251,7 @@ instance : NoPanic (parseSearch fuel) := by
   unfold parseSearch
   have : ∀ x : BStr × List SearchKey, NoPanic (match x with
       | (charset, first) => do
-        let more ← sepLoop .sp (parseSearchKey fuel fuel) fuel
+        let more ← sepLoop .sp (parseSearchKey searchBudget fuel) fuel
         let keys := first ++ more
         if keys.isEmpty then makeError
         else pure (Cmd.search charset keys) : P Cmd) := by
